@@ -47,6 +47,23 @@ func (c *cenv) child() *cenv {
 	return &n
 }
 
+// withBound: quantifier-bound variables stay visible inside next(...), loopval(...)
+func (c *cenv) withBound(n *cenv) *cenv {
+	var ch *cenv
+	for k, v := range c.vars {
+		if v.s == "q_"+k {
+			if ch == nil {
+				ch = n.child()
+			}
+			ch.vars[k] = v
+		}
+	}
+	if ch == nil {
+		return n
+	}
+	return ch
+}
+
 func (c *cenv) boolTerm(ex CExpr) (string, error) {
 	v, err := c.term(ex)
 	if err != nil {
@@ -578,7 +595,7 @@ func (c *cenv) call(x *CCall) (cval, error) {
 		if len(x.Args) != 1 || c.nextEnv == nil {
 			return cval{}, fmt.Errorf("next(e) is only available in loop step clauses")
 		}
-		return c.nextEnv().term(x.Args[0])
+		return c.withBound(c.nextEnv()).term(x.Args[0])
 	case "loopval":
 		if len(x.Args) != 2 || c.loopEnvOf == nil {
 			return cval{}, fmt.Errorf("loopval(n, e) is only available in ensures clauses")
@@ -592,7 +609,7 @@ func (c *cenv) call(x *CCall) (cval, error) {
 		if le == nil {
 			return cval{}, fmt.Errorf("loopval: no loop %d", n)
 		}
-		return le.term(x.Args[1])
+		return c.withBound(le).term(x.Args[1])
 	case "ite":
 		a, err := c.args(x, 3)
 		if err != nil {
